@@ -3,9 +3,9 @@ package lua
 import (
 	"fmt"
 	"io"
+	"math/big"
 	"os"
 	"runtime"
-	"strconv"
 	"strings"
 )
 
@@ -406,27 +406,26 @@ func baseSetMetatable(L *LState) int {
 func baseToNumber(L *LState) int {
 	base := L.OptInt(2, 10)
 	noBase := L.Get(2) == LNil
+	if base < 2 || base > 36 {
+		L.ArgError(2, "base out of range")
+	}
 
 	switch lv := L.CheckAny(1).(type) {
 	case LNumber:
 		L.Push(lv)
 	case LString:
-		str := strings.Trim(string(lv), " \n\t")
-		if strings.Index(str, ".") > -1 {
-			if v, err := strconv.ParseFloat(str, LNumberBit); err != nil {
+		str := strings.Trim(string(lv), " \t\n\v\f\r")
+		if noBase || base == 10 || base == 16 && luaNumeralBase(str) == 16 {
+			if v, err := parseNumber(str); err != nil {
 				L.Push(LNil)
 			} else {
-				L.Push(LNumber(v))
+				L.Push(v)
 			}
+		} else if v, ok := new(big.Int).SetString(str, base); ok {
+			f, _ := new(big.Float).SetInt(v).Float64() // digits of any length, correctly rounded
+			L.Push(LNumber(f))
 		} else {
-			if noBase && strings.HasPrefix(strings.ToLower(str), "0x") {
-				base, str = 16, str[2:] // Hex number
-			}
-			if v, err := strconv.ParseInt(str, base, LNumberBit); err != nil {
-				L.Push(LNil)
-			} else {
-				L.Push(LNumber(v))
-			}
+			L.Push(LNil)
 		}
 	default:
 		L.Push(LNil)
